@@ -430,6 +430,7 @@ type PanicAudit struct {
 	sites    map[pSiteKey]*pSite
 	req      map[*ssa.Function]map[pReq]string // requirement -> originating site description
 	retFacts map[*ssa.Function][]string        // "len\x00<suffix>\x00lo\x00hi" / "nonnil\x00<suffix>"
+	eff      *Effects
 	mayNil   map[*ssa.Function]bool
 	// facts holding at every creation site of a function literal (keys in the parent's vocabulary,
 	// which is also the literal's vocabulary for captured variables)
@@ -1067,6 +1068,37 @@ func (pa *PanicAudit) analyse(f *ssa.Function) (changed bool) {
 		}
 		// facts contributed by calls that return freshly built objects
 		if call, ok := in.(*ssa.Call); ok {
+			// a call through a function-typed parameter of an unexported helper: what every function that is
+			// ever passed for it guarantees about its result holds for the result of the call
+			if g := e.calleeOf(st, fr, &call.Call); g == nil && !call.Call.IsInvoke() && staticCallee(&call.Call) == nil {
+				if pa.eff == nil {
+					pa.eff = NewEffects(pa.P)
+				}
+				if fs, ok := pa.eff.funcValues(call.Call.Value, map[ssa.Value]bool{}, 0); ok && len(fs) > 0 {
+					common := map[string]int{}
+					for _, f := range fs {
+						seenF := map[string]bool{}
+						for _, rf := range pa.retFacts[f] {
+							if !seenF[rf] {
+								seenF[rf] = true
+								common[rf]++
+							}
+						}
+					}
+					var keys []string
+					for rf, n := range common {
+						if n == len(fs) {
+							keys = append(keys, rf)
+						}
+					}
+					sort.Strings(keys)
+					for _, rf := range keys {
+						parts := strings.Split(rf, "\x00")
+						parts[1] = pkey(call) + parts[1]
+						e.emit(st, Ev{Label: "fact", In: in, F: fr, Note: strings.Join(parts, "\x00")})
+					}
+				}
+			}
 			if g := e.calleeOf(st, fr, &call.Call); g != nil {
 				for _, rf := range pa.retFacts[g] {
 					parts := strings.Split(rf, "\x00")
